@@ -104,6 +104,14 @@ func Alphabet(contents []string, nspell int, views [][]string, escapes bool, rea
 			for _, b := range readBufs {
 				add(treefs.Op{Kind: "Reader", P: p.p, Buf: b})
 			}
+			// degenerate streams: opened and closed without a write, one empty write, and the
+			// optional fast paths of a writer (ReadFrom through io.Copy, WriteString)
+			last := contents[len(contents)-1]
+			add(treefs.Op{Kind: "Writer", P: p.p})
+			add(treefs.Op{Kind: "Writer", P: p.p, Chunks: []string{""}})
+			add(treefs.Op{Kind: "Writer", P: p.p, Via: "copy"})
+			add(treefs.Op{Kind: "Writer", P: p.p, Chunks: []string{last}, Via: "copy"})
+			add(treefs.Op{Kind: "Writer", P: p.p, Chunks: []string{last}, Via: "string"})
 			for ci, c := range contents {
 				add(treefs.Op{Kind: "WriteFile", P: p.p, Data: c})
 				if ci == len(contents)-1 {
